@@ -19,7 +19,10 @@ RULE = (
     "cotangent, second vjp call gives the same log. Non-trivial = executed trace has a multi-edge, a fan-out>=2, a dead "
     "op or a value-dependent branch/loop; distinct by canonical executed-trace shape. toposort test: explicit "
     "multigraphs (multi-edges, unreachable nodes): output == ancestors of end, each once, every node after all its "
-    "consumers."
+    "consumers. array_programs: generated array-valued graphs (elementwise, broadcasting, indexing, reductions, constant matrix "
+    "products, concatenation, shared pass-through cotangents; fan-out by drawing sources with replacement) against the full "
+    "Jacobian of an independent dual-number forward sweep on raw NumPy: J^T g for two cotangents, the same VJP function called "
+    "again, and J v in forward mode, tolerance 1e-10 * max|J| * size."
 )
 
 LOG = []
@@ -103,7 +106,7 @@ def gen_program(c, max_ops):
         if k == 10:
             # an inner differentiation whose function closes over outer values; on one branch its result depends on the outer
             # values only (so the inner derivative is exactly zero and must not pick up the outer dependence)
-            stmts.append(["closure", c.choice(["r", "f"]), src(), src(), src(), c.choice([0.5, 0.9, 1.3])])
+            stmts.append(["closure", c.choice(["r", "f"]), src(), src(), src(), c.choice([0.5, 0.9, 1.3]), c.chance(1, 3)])
             nvals += 1
             continue
         if k <= 6:
@@ -161,8 +164,8 @@ def interpret(prog, inputs, be):
             trace.append(("ckpt", st[1], tuple(st[2]), st[3], st[4]))
             vals.append(be.ckpt(st[1], arg(st[2][0]), arg(st[2][1]), st[3], st[4]))
         elif kind == "closure":
-            _, mode, a_s, p_s, b_s, thr = st
-            r, taken = be.closure(mode, arg(a_s), arg(p_s), arg(b_s), thr)
+            _, mode, a_s, p_s, b_s, thr, after_failure = st
+            r, taken = be.closure(mode, arg(a_s), arg(p_s), arg(b_s), thr, after_failure)
             trace.append(("closure", mode, a_s, p_s, b_s, taken))
             vals.append(r)
         elif kind == "loop":
@@ -251,12 +254,28 @@ class AGBackend:
             kw["residual"] = True
         return autograd.checkpoint(fn)(a, b, **kw)
 
-    def closure(self, mode, a, p, b, thr):
+    def closure(self, mode, a, p, b, thr, after_failure=False):
         import warnings
 
         import autograd
 
         taken = []
+        if after_failure:
+            # exception-driven control flow: an inner differentiation that raises part-way (steered by the traced value) and is
+            # caught here, inside the enclosing differentiation, before the one whose result is used
+            class Stop(Exception):
+                pass
+
+            def failing(y):
+                z = a * y + b
+                if z == z:
+                    raise Stop()
+                return z
+
+            try:
+                autograd.grad(failing)(p) if mode == "r" else autograd.make_jvp(failing)(p)(1.0)
+            except Stop:
+                pass
 
         def inner(y):
             if y > thr:
@@ -306,7 +325,7 @@ class RefBackend:
             acc = self.apply(name, [acc, b], None)
         return self.add(acc, a) if residual else acc
 
-    def closure(self, mode, a, p, b, thr):
+    def closure(self, mode, a, p, b, thr, after_failure=False):
         av, pv = T.val(a), T.val(p)
         if pv > thr:  # d/dy [a y^2 + b y] at y = p  =  2 a p + b
             return self.tape.apply(("closure", None), 2.0 * av * pv + T.val(b), [(a, 2.0 * pv), (p, 2.0 * av), (b, 1.0)]), True
@@ -527,14 +546,77 @@ def toposort_body(c):
               labels=labels, sample=sample)
 
 
+def array_body(c):
+    """Array-valued graphs (vh/progs.py): the full Jacobian from the dual-number reference sweep against make_vjp (J^T g for two
+    cotangents, the VJP function called again) and make_jvp (J v)."""
+    import autograd
+    import autograd.numpy as anp
+
+    from .. import progs
+    from ..case import describe_exc, from_autograd
+    from ..refs import dual
+
+    prog = progs.gen(c, max_ops=c.int(3, 14))
+    vseed = c.seed()
+    x0 = progs.input_value(prog, vseed)
+    sample = {"program": prog, "vseed": vseed}
+    bucket = lambda k: f"C03|array_program|{k}"
+    y_ref, J = dual.jacobian(progs.run, prog, x0)
+    if not (onp.all(onp.isfinite(y_ref)) and onp.all(onp.isfinite(J))):
+        return Outcome("numpy_rejects", detail="non-finite reference", sample=sample)
+    scale = max(1.0, float(onp.max(onp.abs(J), initial=0.0)))
+    if scale > 1e6:
+        return Outcome("inconclusive", detail="ill-scaled program", sample=sample)
+    f = lambda x: progs.run(prog, x, anp)
+    g1 = values.direction(vseed, y_ref.shape, 31)
+    g2 = values.direction(vseed, y_ref.shape, 32)
+    v = values.direction(vseed, x0.shape, 33)
+    try:
+        vjp, y = autograd.make_vjp(f)(x0)
+        r1 = onp.asarray(vjp(g1))
+        r2 = onp.asarray(vjp(g2))
+        r1b = onp.asarray(vjp(g1))
+        yj, t = autograd.make_jvp(f)(x0)(v)
+    except Exception as e:
+        if not from_autograd(e):
+            raise
+        return fail("unexpected_exception", describe_exc(e), bucket("exception"), sample=sample)
+    if onp.shape(y) != y_ref.shape or not onp.allclose(y, y_ref, rtol=1e-12, atol=1e-12):
+        return fail("wrong_value", "primal differs from the reference sweep", bucket("primal"), sample=sample)
+    tol = 1e-10 * scale * max(1.0, x0.size)
+    for name, got, g in (("first", r1, g1), ("second", r2, g2), ("first again", r1b, g1)):
+        want = (J.T @ g.ravel()).reshape(x0.shape)
+        if got.shape != want.shape or not float(onp.max(onp.abs(got - want), initial=0.0)) <= tol:
+            return fail("wrong_value", f"reverse mode ({name} cotangent): J^T g = {want.tolist()} but make_vjp gives {got.tolist()}",
+                        bucket("reverse"), sample=sample)
+    want_t = (J @ v.ravel()).reshape(y_ref.shape)
+    t = onp.asarray(t)
+    if t.shape != want_t.shape or not float(onp.max(onp.abs(t - want_t), initial=0.0)) <= tol:
+        return fail("wrong_value", f"forward mode: J v = {want_t.tolist()} but make_jvp gives {t.tolist()}", bucket("forward"), sample=sample)
+    uses = {}
+    for st in prog["stmts"]:
+        for a_ in (st[2:4] if st[0] in ("b", "cat") else [st[2]] if st[0] in ("u", "k") else [st[1]]):
+            uses[a_] = uses.get(a_, 0) + 1
+    fan = max(uses.values(), default=0)
+    kinds = sorted({st[0] for st in prog["stmts"]})
+    return ok(nontrivial=fan >= 2 and bool(onp.any(J)), key=json.dumps(prog), labels=[f"fanout>={min(fan, 4)}"] + ["stmt=" + k for k in kinds], sample=sample)
+
+
+def selftest():
+    from ..refs import dual
+
+    dual.selftest()
+
+
 from functools import partial  # noqa: E402
 
 PROP = Prop("C03", [
     Test("programs", partial(body, 12), quick=1500, thorough=20000, shard_size=250),
     Test("programs_large", partial(body, 40), quick=300, thorough=10000, shard_size=250),
     Test("toposort", toposort_body, quick=3000, thorough=100000, shard_size=2500),
-], RULE, assumptions=[
+    Test("array_programs", array_body, quick=1500, thorough=20000, shard_size=250),
+], RULE, selftest=selftest, assumptions=[
     "reference tape (vh/refs/tape.py, ~100 lines, forward and reverse sweeps cross-checked on every case) is correct",
-    "scalar-valued operations only in this check; array-valued graphs are covered by C04/C07/C10/C11",
+    "dual-number reference sweep for array programs (vh/refs/dual.py) is correct; it is checked against central differences at start-up",
 ])
 PROP.reach_functions = ['autograd.core:add_outgrads', 'autograd.core:backward_pass', 'autograd.util:toposort', 'autograd.tracer:find_top_boxed_args', 'autograd.tracer:trace', 'autograd.core:make_vjp', 'autograd.core:make_jvp']
